@@ -50,6 +50,9 @@ def handler(case):
                 if l.parent_network is mg and r["cb_open"][dist.name] and not any(q["phase"] in ("step", "fail") and q is not r and q["k"] <= r["k"] and q["cb_open"].get(dist.name) for q in info):
                     viols.append(("c14.mg-fault-trips-dist", f"increment {r['k']}: fault on microgrid line {r['line']} opened the breaker of {dist.name}"))
             if r["phase"] == "step":
+                # a microgrid is never connected to a tripped feeder whose sectioning is still running (any mode, any control)
+                if not r["cb_open"][mg.name] and r["cb_open"][dist.name] and r["timers"][dist.name] > 0:
+                    viols.append(("c14.reconnect-before-parent", f"increment {r['k']}: {mode} microgrid is connected while the breaker of {dist.name} is open and its sectioning time still runs ({r['timers'][dist.name]} h left)"))
                 if mode == "SURVIVAL" and prev_open and r["dist_failed"][dist.name] and not r["cb_open"][mg.name]:
                     viols.append(("c14.survival", f"increment {r['k']}: SURVIVAL microgrid reconnected although {dist.name} still has a failed line {r['failed']}"))
                 prev_open = r["cb_open"][mg.name]
@@ -121,7 +124,19 @@ def gen(rng, nm, na):
             for _ in range(rng.randint(1, 4)):
                 c["faults"].setdefault(str(rng.randint(1, 12)), []).append([rng.choice(allp), str(rng.choice([F(1, 2), F(1), F(3, 2), F(2), F(5, 2)]))])
         nodev = c["spec"]["ctrl"].get("nodev")
-        if nodev is not None and rng.random() < 0.6:
+        if nodev is not None and rng.random() < 0.4 and d_lines:
+            # a fault on a distribution line without sensor under ICT-based control: the sectioning takes the manual time,
+            # a support-mode microgrid has to wait for it
+            ln = rng.choice(d_lines)
+            if f"S{ln}" not in nodev:
+                nodev.append(f"S{ln}")
+            if c["spec"]["mg"].get("mode") == "survival" and rng.random() < 0.7:
+                c["spec"]["mg"]["mode"] = rng.choice(["full", "limited"])
+            if F(c["spec"]["ctrl"]["T"]) == 0:
+                c["spec"]["ctrl"]["T"] = "1"
+            c["faults"] = {str(rng.randint(1, 4)): [[ln, str(rng.choice([F(2), F(3), F(7, 2)]))]]}
+            c.pop("single", None)
+        elif nodev is not None and rng.random() < 0.6:
             # a fault on a microgrid line that has no sensor (the controller has to count it by inspection, also when it
             # re-inspects a section that is already flagged)
             ln = rng.choice(mg_lines)
